@@ -68,7 +68,7 @@ let read_op t =
       let p = next_z t in
       let n = next_z t in
       (OSubstr (p, n), SSubstr (p, n))
-  | "sw" ->
+  | "sw" | "swf" ->
       let l = next_zlist t in
       (OSwapWith l, SSwapWith l)
   | "rs0" ->
@@ -225,7 +225,14 @@ let run_case op t =
                     match (returned_pos o, returned_count s o) with
                     | Some p, _ -> [ "R"; zs p ]
                     | None, Ok (Some n) -> [ "R"; zs n ]
-                    | _ -> ret
+                    | _ -> (
+                        match o with
+                        | OSwapWith src -> (
+                            (* the other object after the swap *)
+                            match other_str s src with
+                            | Ok ot -> (match swap_m s ot with Ok (_, b') -> [ "O"; state_s b' ] | _ -> ret)
+                            | _ -> ret)
+                        | _ -> ret)
                   in
                   match step s o with
                   | Ok s' -> run_subs s' ret' more
@@ -251,7 +258,7 @@ let run_case op t =
                     match (spec_returned_pos o, spec_returned_count l o) with
                     | Some p, _ -> [ "R"; zs p ]
                     | None, Some n -> [ "R"; zs n ]
-                    | _ -> ret
+                    | _ -> (match o with SSwapWith _ -> [ "O"; list_s l ] | _ -> ret)
                   in
                   match spec_step_fits cap l o with Some l' -> run_subs l' ret' more | None -> None)
             in
@@ -260,6 +267,49 @@ let run_case op t =
             | None -> "na")
       in
       (go_m (default_str cap ck) [ "ok" ] ops, if raw then "na" else go_s [] [ "ok" ] ops)
+  | "replacei" | "replaceip" | "replaceiz" | "replacef" -> (
+      let l = next_zlist t in
+      let first = next_z t in
+      let last = next_z t in
+      let nth_prefix n x = List.filteri (fun i _ -> i < n) x in
+      (* the characters std::string::replace(first, last, ...) inserts, and the model call *)
+      let ins, model =
+        match op with
+        | "replacef" ->
+            let cnt2 = next_z t in
+            let ch = next_z t in
+            ( (if Big.leq (big_of_z cnt2) (Big.of_int 100000) then Some (List.init (int_of_z cnt2) (fun _ -> ch)) else None),
+              fun s -> replace_it_fill_m s first last cnt2 ch )
+        | "replacei" ->
+            let src = next_zlist t in
+            (Some src, fun s -> if fits cap src then replace_it_m s first last src else Contract)
+        | "replaceip" ->
+            let a = next_zlist t in
+            let cnt2 = next_z t in
+            let x = nth_prefix (int_of_z cnt2) a in
+            (Some x, fun s -> replace_it_m s first last x)
+        | _ ->
+            let a = next_zlist t @ [ Z0 ] in
+            ( s_cstr a,
+              fun s ->
+                match strlen_m (arr_view a) with
+                | Ok n -> replace_it_m s first last (nth_prefix (int_of_z n) a)
+                | Contract -> Contract
+                | UB k -> UB k
+                | OutOfFuel -> OutOfFuel )
+      in
+      let spec =
+        match ins with
+        | Some x -> (
+            let cnt = z_of_big (Big.sub (big_of_z last) (big_of_z first)) in
+            match s_replace l first cnt x with
+            | Some r when fits cap r -> "ok " ^ list_s r
+            | _ -> "na")
+        | None -> "na"
+      in
+      match mk_str cap ck l with
+      | Ok s -> (res_s state_s (model s), spec)
+      | _ -> ("contract", "na"))
   | "replace" | "replace5" | "replacep" | "replacez" -> (
       let l = next_zlist t in
       let pos = next_z t in
@@ -391,6 +441,18 @@ let run_case op t =
                   match mk_str cap ck b with
                   | Ok sb -> (res_s bools (rel_str_str_m s sb), "ok " ^ bools (rel_s ct l b))
                   | _ -> ("contract", "na"))
+              | "sx" ->
+                  let b = next_zlist t in
+                  if List.length b > 31 then ("contract", "na")
+                  else (
+                    match mk_str (z_of_int 31) ck b with
+                    | Ok sb ->
+                        let f bl c = bools bl ^ " " ^ zs c in
+                        ( (match (rel_str_str_m s sb, str_compare_m s sb) with
+                           | Ok bl, Ok c -> "ok " ^ f bl c
+                           | _ -> "ub"),
+                          "ok " ^ f (rel_s ct l b) (compare_s ct l b) )
+                    | _ -> ("contract", "na"))
               | "sz" ->
                   let a = cstr_arr () in
                   (res_s bools (rel_str_cstr_m s a), "ok " ^ bools (rel_s ct l (cstr_s (view_chars a))))
